@@ -426,13 +426,13 @@ fn templates(c: char) -> [Vec<char>; 12] {
 }
 
 /// The deep pass: this binary was compiled without optimisation. A few long runs - a dozen
-/// symbols repeated 4 000 times, and ZWNJ / ZWJ between such runs of transparent marks - go
-/// through the main operations on threads whose stack is 128 KiB. Recursion whose depth follows the input overflows such a
+/// symbols repeated 5 000 times, and ZWNJ / ZWJ between such runs of transparent marks - go
+/// through the main operations on threads whose stack is 256 KiB. Recursion whose depth follows the input overflows such a
 /// stack after a few thousand frames (the process dies: "engine died" = violation of C01);
 /// iteration does not care.
 pub fn run_deep(_env: &Env, run: &Run) -> (Stats, Coverage) {
-    const K: usize = 4000;
-    const STACK: usize = 128 * 1024;
+    const K: usize = 5000;
+    const STACK: usize = 256 * 1024;
     let sigma: Vec<char> = [0x61u32, 0x20, 0xE9, 0x301, 0x5BF, 0x64B, 0x628, 0x5D0, 0x94D, 0x30FB, 0x660, 0xFF21]
         .iter()
         .filter_map(|c| char::from_u32(*c))
